@@ -9,7 +9,7 @@ void coap_dispatch(void *ctx, void *session, coap_pdu_t *pdu);
 size_t coap_opt_parse(const uint8_t *opt, size_t length, coap_option_t *result) {
   if (length < 1) return 0;
   result->delta = (*opt & 0xf0) >> 4;
-  result->length = *opt & 0x0f;
+  result->length = *opt & 0x0f;   // EXPECT R-PARSE-GATE
   switch (result->delta) {
   case 15: return 0;
   default: ;
@@ -23,7 +23,7 @@ size_t coap_opt_parse(const uint8_t *opt, size_t length, coap_option_t *result) 
 }
 int coap_pdu_parse_header(coap_pdu_t *pdu, int proto) {  // EXPECT R-PARSE-GATE
   uint8_t *hdr = pdu->token - pdu->hdr_size;
-  uint8_t e_token_length = hdr[0] & 0x0f;
+  uint8_t e_token_length = hdr[0] & 0x0f;   // EXPECT R-PARSE-GATE
   pdu->e_token_length = e_token_length;
   if (pdu->e_token_length > pdu->alloc_size) { pdu->e_token_length = 0; return 0; }
   return 1;
